@@ -1,8 +1,8 @@
 #!/verif/.venv/bin/python
 # Replay of a solver counterexample against the unmodified code (no shims).
-# property=C01 kernel=slm label=slm:masked_add_is_accepted
+# property=C01 kernel=l1 label=c01:max_sequence_duration
 import sys
 sys.path[:0] = ['/repo' + "/pulser-core", '/repo' + "/pulser-simulation", "/verif"]
 from symx.replay import replay
-sys.exit(replay(check='checks.c01', kernel='slm', shape={'order': 'mask_first', 'masked': ['q0', 'q1', 'q2'], 'rem': 0},
-                assignment={'amp': '1025017207358883/140737488355328', 'dur/k': 2}, label='slm:masked_add_is_accepted'))
+sys.exit(replay(check='checks.c01', kernel='l1', shape={'own': {'clock': 1, 'local': True, 'slots': [], 'mod': True, 'pj': 'custom', 'targets_a': ['q0'], 'targets_b': ['q1']}, 'op': ['add_target', 'diff'], 'maxseq': True, 'nbarriers': 1},
+                assignment={'max_sequence_duration': 1, 'own.min_duration': 1, 'own.tr': 1, 'own.pjt': 0, 'own.min_retarget': 2, 'own.fixed_retarget': 1}, label='c01:max_sequence_duration'))
